@@ -446,12 +446,19 @@ func keepSnappy(ks *kase) {
 	r := ks.r
 	kp := &keeper{ks: ks}
 	shared := compress.NewSnappyWriter()
+	writers := []compress.Writer{shared}
+	defer func() { // Bytes() re-arms a writer: release their goroutines when the case ends
+		for _, w := range writers {
+			_ = w.Close()
+		}
+	}()
 	n := r.between(3, 6)
 	for i := 0; i < n; i++ {
 		payload, desc := genPayload(r, 120_000)
 		w := shared // Bytes() copies: the same writer goes on while earlier chunks are kept
 		if r.chance(1, 3) {
 			w = compress.NewSnappyWriter()
+			writers = append(writers, w)
 		}
 		_, _ = w.Write(payload)
 		if err := w.Close(); err != nil {
